@@ -430,6 +430,11 @@ func (e *specEnv) index(n *ast.IndexExpr) Val {
 		return e.elemRead(b, i.C[0])
 	case *types.Map:
 		_, val := e.t.mapRead(e.cur, bt, b.C[0], e.t.mapKey(i))
+		if e.acc != nil {
+			dn, ds := mapDomHeap(bt)
+			k := e.t.mapKey(i)
+			*e.acc = append(*e.acc, access{sel(e.t.heapGet(e.cur, dn, ds), b.C[0]), "0", k, k})
+		}
 		return Val{bt.Elem(), val}
 	case *types.Basic:
 		if isString(b.T) {
@@ -762,6 +767,9 @@ func (e *specEnv) call(n *ast.CallExpr) Val {
 			}
 			h := e.t.heapGet(e.cur, elemHeap(sl.Elem(), ".len"), arr2Sort("Int"))
 			return Val{tInt, []string{fmt.Sprintf("(ssum %s %s %s %s)", sel(h, sv.C[0]), add(sv.C[1], iv), add(sv.C[1], sv.C[2]), cv)}}
+		case "pow2":
+			v := e.eval(n.Args[0])
+			return Val{tBool, []string{"(pow2 " + v.C[0] + ")"}}
 		case "disjoint":
 			a, b := e.eval(n.Args[0]), e.eval(n.Args[1])
 			return Val{tBool, []string{or(not(eq(a.C[0], b.C[0])), le(add(a.C[1], a.C[2]), b.C[1]), le(add(b.C[1], b.C[2]), a.C[1]))}}
@@ -841,6 +849,11 @@ func (e *specEnv) call(n *ast.CallExpr) Val {
 			m, k := e.eval(n.Args[0]), e.eval(n.Args[1])
 			mt := under(m.T).(*types.Map)
 			p, _ := e.t.mapRead(e.cur, mt, m.C[0], e.t.mapKey(k))
+			if e.acc != nil {
+				dn, ds := mapDomHeap(mt)
+				kk := e.t.mapKey(k)
+				*e.acc = append(*e.acc, access{sel(e.t.heapGet(e.cur, dn, ds), m.C[0]), "0", kk, kk})
+			}
 			return Val{tBool, []string{p}}
 		case "typeis":
 			// typeis(x, "pkg.Type") / typeis(x, (*T)(nil))? -> use identifier form typeis(x, T) or typeis(x, ptr(T))
